@@ -2,7 +2,7 @@
 //! model expects. Every accessor call is wrapped: an item is `ok:<value>`, `err:<message>` or
 //! `panic:<site>:<message>`. Keys are stable paths, so dumps can be compared item-wise.
 
-use crate::cont::{ContCase, CreatedCont};
+use crate::cont::{packinfo_free, ContCase, CreatedCont};
 use crate::dirs::*;
 use crate::util;
 use jubako as jbk;
@@ -21,6 +21,9 @@ pub struct Plan {
     /// content addresses to resolve
     pub addrs: Vec<(u16, u32)>,
     pub pack_ids: Vec<u16>,
+    /// also read what the manifest records (its own free data, per-pack free data) through `tools::open_pack`, which
+    /// opens pack files and container files but has no tail fallback (not for containers embedded after a prefix)
+    pub manifest_free: bool,
     /// also run the integrity checks
     pub checks: bool,
     /// hash content bytes (else only sizes)
@@ -63,7 +66,7 @@ pub fn plan_for(case: &ContCase, created: Option<&CreatedCont>) -> Plan {
     addrs.sort();
     addrs.dedup();
     let pack_ids = (0..case.extra.len() as u16 + 3).collect();
-    Plan { indexes, addrs, pack_ids, checks: true, bytes: true }
+    Plan { indexes, addrs, pack_ids, checks: true, bytes: true, manifest_free: true }
 }
 
 fn val_str(v: &Val) -> String {
@@ -131,6 +134,65 @@ pub fn dump_container(path: &Path, plan: &Plan) -> Dump {
             },
             |v| v.clone(),
         );
+    }
+    // free data: of each pack's own header, and what the manifest records for each pack
+    if !plan.pack_ids.is_empty() {
+        item(&mut d, "pack/0/free".into(), || Ok(container.get_directory_pack().get_free_data().to_vec()), |v| util::brief(v));
+        for id in plan.pack_ids.iter().filter(|id| **id != 0) {
+            let r = util::catch(|| match container.get_pack(jbk::PackId::from(*id)) {
+                Ok(Some(MayMissPack::FOUND(p))) => Some(p.get_free_data().to_vec()),
+                _ => None,
+            });
+            match r {
+                Ok(Some(v)) => {
+                    d.insert(format!("pack/{id}/free"), format!("ok:{}", util::brief(&v)));
+                }
+                Ok(None) => {}
+                Err(p) => {
+                    d.insert(format!("pack/{id}/free"), format!("panic:{}:{}", p.site(), p.norm_msg()));
+                }
+            }
+        }
+        let manifest = if !plan.manifest_free {
+            None
+        } else {
+            item(
+            &mut d,
+            "pack/manifest/free".into(),
+            || {
+                let cp = jbk::tools::open_pack(path).map_err(|e| format!("open_pack: {e}"))?;
+                let mr = cp.get_manifest_pack_reader().map_err(|e| e.to_string())?.ok_or("no manifest reader")?;
+                let m = jbk::reader::ManifestPack::new(mr).map_err(|e| format!("ManifestPack::new: {e}"))?;
+                Ok((m.get_free_data().to_vec(), m))
+            },
+            |v| util::brief(&v.0),
+        )
+        };
+        if let Some((_, m)) = manifest {
+            let mut infos = vec![m.get_directory_pack_info().clone()];
+            infos.extend(m.get_pack_infos().iter().cloned());
+            for info in infos {
+                let id = info.pack_id.into_u16();
+                item(
+                    &mut d,
+                    format!("pack/{id}/manifest_free"),
+                    || {
+                        let by_uuid = m.get_pack_free_data_uuid(info.uuid).map_err(|e| e.to_string())?.map(|b| b.to_vec());
+                        if format!("{:?}", info.pack_kind) == "Content" {
+                            let by_id = m.get_pack_free_data(info.pack_id).map_err(|e| e.to_string())?.map(|b| b.to_vec());
+                            if by_id != by_uuid {
+                                return Err(format!("get_pack_free_data by id gives {by_id:?}, by uuid {by_uuid:?}"));
+                            }
+                        }
+                        Ok(by_uuid)
+                    },
+                    |v| match v {
+                        Some(b) => util::brief(b),
+                        None => "none".into(),
+                    },
+                );
+            }
+        }
     }
     // directory side
     let dpack = container.get_directory_pack().clone();
@@ -312,6 +374,24 @@ pub fn expected_dump(case: &ContCase, created: &CreatedCont, plan: &Plan) -> Dum
                 } else {
                     d.insert(key, "ok:none".into());
                 }
+            }
+        }
+    }
+    if !plan.pack_ids.is_empty() {
+        let seed = case.dir.free;
+        let z = vec![0u8; 24];
+        let loose = created.loose;
+        d.insert("pack/0/free".into(), format!("ok:{}", util::brief(&if loose { pack_free(seed, "directory").to_vec() } else { z.clone() })));
+        if plan.manifest_free {
+            d.insert("pack/manifest/free".into(), format!("ok:{}", util::brief(&if loose { pack_free(seed, "manifest").to_vec() } else { z.clone() })));
+            d.insert("pack/0/manifest_free".into(), format!("ok:{}", util::brief(&if loose { packinfo_free(seed, 0) } else { vec![] })));
+        }
+        for id in counts.keys() {
+            // BasicCreator makes pack 1 itself (default free data); extra packs and loose packs get the case's
+            let own = if loose || *id >= 2 { pack_free(seed, &format!("content:{id}")).to_vec() } else { z.clone() };
+            d.insert(format!("pack/{id}/free"), format!("ok:{}", util::brief(&own)));
+            if plan.manifest_free {
+                d.insert(format!("pack/{id}/manifest_free"), format!("ok:{}", util::brief(&if loose { packinfo_free(seed, *id) } else { vec![] })));
             }
         }
     }
